@@ -283,9 +283,9 @@ func c27AttrASPath(asns []uint32, as4 bool) []byte {
 	return c27Attr(0x40, 2, v)
 }
 
-func c27AttrNextHop(nh [4]byte) []byte   { return c27Attr(0x40, 3, nh[:]) }
-func c27AttrMED(v uint32) []byte         { return c27Attr(0x80, 4, c27u32(v)) }
-func c27AttrLocalPref(v uint32) []byte   { return c27Attr(0x40, 5, c27u32(v)) }
+func c27AttrNextHop(nh [4]byte) []byte { return c27Attr(0x40, 3, nh[:]) }
+func c27AttrMED(v uint32) []byte       { return c27Attr(0x80, 4, c27u32(v)) }
+func c27AttrLocalPref(v uint32) []byte { return c27Attr(0x40, 5, c27u32(v)) }
 func c27AttrCommunities(cs ...uint32) []byte {
 	v := []byte{}
 	for _, c := range cs {
